@@ -33,19 +33,22 @@ rule = ("scripts = 'a handles n', a set-up building typed buffers whose element 
         "never duplicated while shared. Third part (harness/drv_refs.c, 'r' lines): the library's own element traits — "
         "arrays of arrays (mpt_array_traits: wrap, push, take an own/other child as new content, set from source "
         "elements, assignment of an element to itself, the whole content written back rotated (2..64 references, beyond the "
-        "256 byte save area of mpt_buffer_set), cut, detach, clone, drop) and arrays of metatype references (mpt_meta_reference_traits with sharable "
+        "256 byte save area of mpt_buffer_set), cut, detach, clone, drop; arrays of identifiers (mpt_identifier_traits; set from "
+        "sources, private copy, replace, cut, release with names inside the element, at the boundary and on the heap, judged by "
+        "name comparison, the sanitizers and the heap count) and arrays of metatype references (mpt_meta_reference_traits with sharable "
         "and single-owner harness instances) plus leaf token arrays: 8 set-ups x 37 ops, all pairs (quick: every third "
         "second op), random histories over 4 handles; after every op the harness checks that buffer and instance "
         "reference counts equal the references that exist, every live token is stored once, nothing is released twice, "
         "nothing is alive or allocated at the end. Fourth part (harness/drvxx_refs.cpp): reference_array<Obj> insert/set/"
         "clear/copy/drop with an object type larger than a pointer, and item_array<Obj>::append with no name, names stored in "
-        "the item, on the heap, and names the identifier refuses (the caller keeps its reference then). Non-trivial = the code's log contains a copy construction or a refused "
+        "the item, on the heap, and names the identifier refuses (the caller keeps its reference then), items giving up their "
+        "instance, count() (must equal the instances the harness finds) and compact() (no empty item may remain). Non-trivial = the code's log contains a copy construction or a refused "
         "constructor and a destruction before the final release, counted per distinct script")
 assumptions = [
     "byte-level part: element traits are those of the harness (4 and 8 byte elements holding a token; init/fini as in "
     "harness/drv_array.c; f8 = destructor only); reference part: the library's array traits and metatype-reference "
-    "traits with harness metatype instances; the traits of config items, commands and identifiers are not driven here "
-    "(config items: C10, commands: C11, identifiers: C16)",
+    "traits with harness metatype instances; identifier traits are exercised by a self-contained harness routine without a "
+    "model of their own; the traits of config items and commands are not driven here (config items: C10, commands: C11)",
     "the destructor-only harness type f8 treats a zeroed element as an empty reference (its destructor does nothing for "
     "it and the stored-token comparison skips it), as reference_array<T> does",
     "arrays of arrays are built without cycles (a buffer that contains a reference to itself is never released)",
@@ -341,6 +344,9 @@ def refs_scripts(tier, seed, scale=1):
                         for b in ("r drop h0", "r selfrot %s 1" % h, "r cut %s 0" % h, "r madd %s 1" % h):
                             out.append(("rot:%d:%d:%s:%s:%d;%s" % (cnt, sh, shared, h, k, b),
                                         ["r handles 2"] + su + ["r selfrot %s %d" % (h, k), b, "r end"]))
+    # arrays of identifiers (mpt_identifier_traits): names inside the element (up to 11 bytes), at the boundary, on the heap
+    for cnt in (0, 1, 8, 9, 10, 11, 12, 13, 14, 27, 28, 255, 300, 1000):
+        out.append(("rid:%d" % cnt, ["r handles 1", "r identcheck h0 %d" % cnt, "r leaf h0 2", "r identcheck h0 %d" % cnt, "r end"]))
     r = gen.rng(id, tier, seed, "refs")
     n = (300 if tier == "quick" else 5000) * scale
     hs = ["h0", "h1", "h2", "h3"]
@@ -417,10 +423,13 @@ class _RefsXX:
         # more with the terminator), unnamed, onto empty / filled / shared arrays
         isetups = {"empty": [], "two": ["r iappend h0 1 3", "r iappend h0 0 -"],
                    "two-shared": ["r iappend h0 1 3", "r iappend h0 0 40", "r rclone h1 h0"],
-                   "grown": ["r iappend h0 1 %d" % (k * 7) for k in range(9)]}
+                   "grown": ["r iappend h0 1 %d" % (k * 7) for k in range(9)],
+                   "holes": ["r iappend h0 1 3", "r iappend h0 0 40", "r iappend h0 1 -", "r iappend h0 1 9", "r iclear h0 0", "r iclear h0 2"],
+                   "holes-shared": ["r iappend h0 1 3", "r iappend h0 0 40", "r iappend h0 1 -", "r iclear h0 1", "r rclone h1 h0"]}
         def iops(h, o):
             return ["r iappend %s %d %s" % (h, sh, n) for sh in (0, 1) for n in ("-", "0", "27", "28", "300", "65533", "65534", "65535", "65536", "70000")] \
-                + ["r rdrop %s" % h, "r rclone %s %s" % (h, o)]
+                + ["r rdrop %s" % h, "r rclone %s %s" % (h, o), "r iclear %s 0" % h, "r iclear %s -1" % h, "r iclear %s 5" % h,
+                   "r icount %s" % h, "r icompact %s" % h]
         ipool = iops("h0", "h1") + iops("h1", "h0")
         for sn, su in isetups.items():
             for a in ipool:
